@@ -8,6 +8,7 @@ from mirsym.models import is_ws, str_concat, str_sub
 from .common import *
 from mirsym.harness import process_failed, witness, discharge_known
 
+from .c01 import job_token_inductive, replayer as lemma_replayer
 PID = 'C02'
 DOLLAR, PERCENT, LBRACE, RBRACE = 36, 37, 123, 125
 
@@ -173,6 +174,7 @@ def job_spread(ctx, jr, name_cap, val_cap, nvars):
 
 
 def replayer(v):
+    if v.get('kind') == 'c01_lemma': return lemma_replayer(v)
     # public route: a scripted command that logs what it receives; the written argument sits in an instruction
     # built by the parser, so the replay writes it in quotes with the parser's escapes
     def q(s): return '"' + s.replace('\\', '\\\\').replace('"', '\\"').replace('\n', '\\n').replace('\r', '\\r').replace('\t', '\\t') + '"'
@@ -216,12 +218,14 @@ def main(tier, seed):
         for gi, g in enumerate(groups(shapes1 + shapes2, 6)): chk.job(job_single, 'single:1-2seg/%d' % gi, shapes=g, name_cap=2, val_cap=4, nvars=2)
         for gi, g in enumerate(groups(pick3, 5)): chk.job(job_single, 'single:3seg/%d' % gi, shapes=g, name_cap=2, val_cap=4, nvars=2)
         chk.job(job_spread, 'spread', name_cap=2, val_cap=4, nvars=2)
+        chk.job(job_token_inductive, 'parser keeps backslash-dollar-brace', N=24, C=12, part='C02')
         chk.bounds = dict(templates='all shapes of <= 2 segments (30) + 10 seeded shapes of 3 segments (at most one escaped segment); one solver run per shape', names='<= 2 chars', values='<= 4 chars', variables=2)
     else:
         for gi, g in enumerate(groups(shapes1 + shapes2 + shapes3, 14)): chk.job(job_single, 'single:1-3seg/%d' % gi, shapes=g, name_cap=2, val_cap=5, nvars=2)
         chk.job(job_spread, 'spread', name_cap=2, val_cap=6, nvars=2)
+        chk.job(job_token_inductive, 'parser keeps backslash-dollar-brace', N=64, C=32, part='C02')
         chk.bounds = dict(templates='all 155 shapes of <= 3 segments; one solver run per shape', names='<= 2 chars', values='<= 5 chars (spread: 6)', variables=2)
     chk.assumptions = ['std models for String/Vec/HashMap/Chars', 'spread (%{name}) values exclude " and # (README: "acts the same as writing the words on the line")',
-                       'names: non-empty, no space/tab/CR/LF, =, }', 'the written argument is given in parsed form (the parser keeps \\${ as is)']
+                       'names: non-empty, no space/tab/CR/LF, =, }', 'the written argument is given in parsed form; that the parser keeps \\${ as these three characters is decided by the scanner lemmas CTL+$ and VAR+{ (DESIGN 8.6)']
     results = chk.run()
     return chk.finish(results, 'every obligation is a solver query over all templates/environments within the bounds')
